@@ -351,7 +351,27 @@ func (fc *FuncCtx) envFor(fr *Frame, st *State, results []Val, useLocals bool) *
 		// a closure verified on its own: its requires/ensures may name the captured variables
 		env.local = func(name string) (SVal, bool) { return fc.lookupFree(fr, st, name) }
 	}
+	fc.setOldLocal(fr, env)
 	return env
+}
+
+// setOldLocal: inside old(...), a captured variable of a closure verified on its own denotes the value
+// the shared cell had at the entry of the closure (other names resolve as outside old()).
+func (fc *FuncCtx) setOldLocal(fr *Frame, env *Env) {
+	if !fr.isTop || len(fr.fn.FreeVars) == 0 || fr.entrySt == nil {
+		return
+	}
+	cur := env.local
+	entry := fr.entrySt
+	env.oldLocal = func(name string) (SVal, bool) {
+		if v, ok := fc.lookupFree(fr, entry.clone(), name); ok {
+			return v, true
+		}
+		if cur != nil {
+			return cur(name)
+		}
+		return SVal{}, false
+	}
 }
 
 func (fc *FuncCtx) lookupFree(fr *Frame, st *State, name string) (SVal, bool) {
@@ -566,7 +586,14 @@ func elabModLoc(p *Program, m string, env *Env) (locs []ModLoc, err error) {
 	switch {
 	case strings.HasPrefix(m, "mem(") && strings.HasSuffix(m, ")"):
 		t := env.parseType(m[4 : len(m)-1])
-		return []ModLoc{{Heap: p.elemHeap(t)}}, nil
+		var locs []ModLoc
+		for _, h := range p.elemHeaps(t) {
+			locs = append(locs, ModLoc{Heap: h})
+		}
+		if len(locs) == 0 {
+			unsupp("element type %s unsupported", t)
+		}
+		return locs, nil
 	case strings.HasPrefix(m, "field(") && strings.HasSuffix(m, ")"):
 		body := m[6 : len(m)-1]
 		i := strings.LastIndex(body, ".")
@@ -814,6 +841,11 @@ func (fc *FuncCtx) addrHeap(v ssa.Value) (cell *ssa.Alloc, heap string) {
 		if sortOf(f.Type()) == nil {
 			return nil, ""
 		}
+		if ia, ok := a.X.(*ssa.IndexAddr); ok {
+			if elT := indexedElem(ia.X.Type()); elT != nil && flatStructFields(elT) != nil {
+				return nil, fc.p.elemFieldHeap(elT, f) // field of an element of a slice of flat structs
+			}
+		}
 		return nil, fc.p.fieldHeap(st, f)
 	case *ssa.IndexAddr:
 		switch u := a.X.Type().Underlying().(type) {
@@ -870,6 +902,14 @@ func (fc *FuncCtx) modOfInstr(fr *Frame, ins ssa.Instruction, cells map[*ssa.All
 		if h != "" {
 			mi.heaps[h] = true
 		}
+		if ia, ok := x.Addr.(*ssa.IndexAddr); ok {
+			// store of a whole struct into an element of a slice/array of flat structs: every per-field heap
+			if elT := indexedElem(ia.X.Type()); elT != nil && sortOf(elT) == nil {
+				for _, eh := range fc.p.elemHeaps(elT) {
+					mi.heaps[eh] = true
+				}
+			}
+		}
 		if fv, ok := x.Addr.(*ssa.FreeVar); ok && fr != nil {
 			// closure writing a captured cell of the enclosing frame
 			if lv := fr.regs[fv]; lv.LV != nil && lv.LV.Kind == lvCell && cells != nil {
@@ -922,8 +962,10 @@ func (fc *FuncCtx) modOfCall(fr *Frame, call *ssa.CallCommon, cells map[*ssa.All
 		switch bi.Name() {
 		case "append":
 			mi.allocs = true
-			if sl, ok := call.Args[0].Type().Underlying().(*types.Slice); ok && sortOf(sl.Elem()) != nil {
-				mi.heaps[fc.p.elemHeap(sl.Elem())] = true
+			if sl, ok := call.Args[0].Type().Underlying().(*types.Slice); ok {
+				for _, h := range fc.p.elemHeaps(sl.Elem()) {
+					mi.heaps[h] = true
+				}
 			}
 		case "copy":
 			if sl, ok := call.Args[0].Type().Underlying().(*types.Slice); ok && sortOf(sl.Elem()) != nil {
@@ -1306,6 +1348,7 @@ func (fc *FuncCtx) bindLoopVars(fr *Frame, li *loopInfo, st *State, env *Env) {
 	if env.local != nil && li.stmt != nil {
 		at := li.stmt.Pos()
 		env.local = func(name string) (SVal, bool) { return fc.lookupLocalAt(fr, st, name, at) }
+		fc.setOldLocal(fr, env)
 	}
 	// visited(k): the ghost visited set of the map iteration of this loop
 	for _, ins := range li.header.Instrs {
@@ -1590,3 +1633,16 @@ type bigInt = big.Int
 func bigFromString(s string) *bigInt { n, _ := new(bigInt).SetString(s, 10); return n }
 
 var _ = constant.MakeInt64
+
+// indexedElem: the element type addressed by an IndexAddr on a value of type t (slice or pointer to array)
+func indexedElem(t types.Type) types.Type {
+	switch u := t.Underlying().(type) {
+	case *types.Slice:
+		return u.Elem()
+	case *types.Pointer:
+		if at, ok := u.Elem().Underlying().(*types.Array); ok {
+			return at.Elem()
+		}
+	}
+	return nil
+}
